@@ -98,7 +98,11 @@ def handle (inp out : String) : String :=
       let spec := if auth == "auth=0" && st == "0" then some "content-delivered-from-a-reply-that-is-not-authentic"
         else if auth == "auth=0" && !(out.endsWith "cb=0") then some "configuration-callback-invoked-for-a-reply-that-is-not-authentic"
         else none
-      verdict s!"resp:{fam}:v{v}:{auth}:{st}" ms out spec
+      -- a MAC whose algorithm octet reads RIPEMD-160: the library (OpenSSL) computes it, the driver has no RIPEMD-160 —
+      -- outside the compared domain; both refuse, with different codes
+      let ripemd := ms.startsWith "259 " && st != "0" && auth != "auth=1"
+      if ripemd && spec.isNone then s!"ok resp:{fam}:v{v}:{auth}:ripemd160-mac-not-compared"
+      else verdict s!"resp:{fam}:v{v}:{auth}:{st}" ms out spec
     | _, _, _ => "skip bad-args"
   | ["async", ver, calg, key, reply, auth] =>
     match ver.toNat?, ofHex key, ofHex reply with
